@@ -46,14 +46,34 @@ def tainted(e):
     return False
 
 
+def _len_aliases(ln):
+    """len(X.pattern) is mirrored by the field X.len of ReCompiler (alias validated by X-STRIP-GATE / FLAG-Q-XPATH)."""
+    out = [ln]
+    if ln[0] == "len" and ln[1][0] == "field" and ln[1][2] == "pattern":
+        out.append(("field", ln[1][1], "len"))
+    return out
+
+
+def _is_conv_of_length(e):
+    if e[0] == "cast":
+        return True
+    if e[0] == "call" and e[1].endswith("::unwrap") and e[2] and e[2][0][0] == "call" and "try_into" in e[2][0][1]:
+        return True
+    return False
+
+
+_VNUM = re.compile(r"\bv\d+\b")
+
+
 def _static_key(ctx, body, bb, kind):
+    """Stable shape key of a site: kind + flow-insensitive operand expressions (MIR local numbers erased)."""
     se = ctx.senv(body)
     t = body.blocks[bb]["term"]
     if t["k"] == "assert":
-        ops = [strip_ver(show(se.operand(o))) for o in t["ops"]]
-        return "%s(%s)" % (t["kind"], ", ".join(ops))
+        ops = [_VNUM.sub("v", strip_ver(show(se.operand(o)))) for o in t["ops"]]
+        return "%s(%s)" % (t["kind"], ", ".join(o[:120] for o in ops))
     d, r, fn = callee(t)
-    args = [strip_ver(show(se.operand(a))) for a in t["args"]]
+    args = [_VNUM.sub("v", strip_ver(show(se.operand(a)))) for a in t["args"]]
     return "%s:%s(%s)" % (kind, r.split("::")[-1] if r else "?", ", ".join(a[:90] for a in args))
 
 
@@ -122,7 +142,7 @@ class SiteScan:
             ops = [val(o) for o in t["ops"]]
             if kind == "BoundsCheck":
                 ln, ix = ops
-                if g.get(("lt", ix, ln)) is True:
+                if any(g.get(("lt", ix, l2)) is True for l2 in _len_aliases(ln)):
                     return True, ""
                 if ix[0] == "const" and ln[0] == "const" and ix[2] < ln[2]:
                     return True, ""
@@ -155,7 +175,9 @@ class SiteScan:
                     return True, ""
                 return False, "no dominating test %s >= %s" % (show(a), show(b_))
             if kind == "OverflowNeg":
-                return False, "negation"
+                if not tainted(ops[0]) and _is_conv_of_length(ops[0]):
+                    return True, ""
+                return False, "negation of %s" % show(ops[0])[:60]
             return False, kind
         args = [val(a) for a in t["args"]]
         if kind == "index":
@@ -164,11 +186,14 @@ class SiteScan:
             targs = " ".join(fn.get("targs", []))
             if "Range" in targs:
                 return False, "range index %s" % show(i)[:80]
-            if g.get(("lt", i, ("len", v))) is True:
+            if any(g.get(("lt", i, l2)) is True for l2 in _len_aliases(("len", v))):
                 return True, ""
             return False, "no dominating test %s < len(%s)" % (show(i)[:60], show(v)[:40])
         if kind == "unwrap":
             x = args[0]
+            # D-f: usize<->isize conversion of an untainted length / position (assumption: lengths <= isize::MAX/4)
+            if x[0] == "call" and x[1] in ("<T as TryInto<U>>::try_into",) and not tainted(x):
+                return True, ""
             for ga, go in g.items():
                 if ga == ("variant", x) and go in (("variant", "Some"), ("variant", "Ok")):
                     return True, ""
@@ -183,6 +208,21 @@ class SiteScan:
             return False, "unwrap of %s without a dominating Some/Ok test" % show(x)[:80]
         if kind == "refcell":
             return True, ""  # decided by BORROW-SCOPE
+        if kind == "vecop":
+            d, r, fn = callee(t)
+            m = r.split("::")[-1]
+            v, i = args[0], args[1]
+            if m == "remove":
+                if any(g.get(("lt", i, l2)) is True for l2 in _len_aliases(("len", v))):
+                    return True, ""
+                if i[0] == "const":
+                    for ga, go in g.items():
+                        if go is True and ga[0] == "eq" and ("len", v) in ga[1:] and any(x[0] == "const" and x[2] > i[2] for x in ga[1:]):
+                            return True, ""
+            if m == "insert":
+                if i == ("const", "int", 0):
+                    return True, ""
+            return False, "%s(%s, %s)" % (m, show(v)[:40], show(i)[:40])
         return False, kind
 
     def _walk(self):
